@@ -67,16 +67,14 @@ Lemma resume_delivers : forall s k c vals s1,
   exists c1, get k (cos s1) = Some c1 /\
     co_pop k (map (@List.length Z) vals) s1 = (COk, vals, with_st s1 k c1 (storage c)).
 Proof.
-  intros s k c vals s1 I G H. pose proof H as H0. unfold co_resume in H.
-  destruct (match vals with [] => (COk, s) | _ :: _ => co_push k vals s end) as [r1 sp] eqn:P.
-  assert (X : r1 = COk /\ Inv sp /\ exists cp, get k (cos sp) = Some cp /\ storage cp = storage c ++ List.concat vals).
+  intros s k c vals s1 I G H.
+  destruct (co_resume_cases _ _ _ _ _ I H) as [(_ & sp & P & R)|((e & X) & _)]; [|discriminate].
+  assert (X : Inv sp /\ exists cp, get k (cos sp) = Some cp /\ storage cp = storage c ++ List.concat vals).
   { destruct vals as [|v vr].
-    - inversion P; subst. split; [reflexivity|]. split; [assumption|]. exists c. simpl. rewrite app_nil_r. auto.
-    - destruct r1; try discriminate. split; [reflexivity|].
-      split; [eapply same_ctl_Inv; [eapply co_push_same; eauto|assumption]|].
+    - inversion P; subst. split; [assumption|]. exists c. simpl. rewrite app_nil_r. auto.
+    - split; [eapply same_ctl_Inv; [eapply co_push_same; eauto|assumption]|].
       destruct (co_push_storage _ _ _ _ _ I G P) as (c1 & A & B & _). eauto. }
-  destruct X as (-> & Ip & cp & Gp & Sp).
-  destruct (mco_resume k sp) as [e s2] eqn:R. destruct e; simpl in H; try discriminate. inversion H; subst s2.
+  destruct X as (Ip & cp & Gp & Sp).
   split.
   - unfold mco_resume in R. rewrite Gp in R. destruct (negb (cstate_eqb (co_st cp) Suspended)); inversion R. reflexivity.
   - destruct (mco_resume_storage _ _ _ _ _ R Gp) as (c1 & G1 & S1). exists c1. split; [exact G1|].
@@ -163,19 +161,16 @@ Lemma body_receives_arguments : forall s k c vals s1,
                 arrive k s1 = (s2, [mkLine (Some k) 0 "start" (map FV vals)]).
 Proof.
   intros s k c vals s1 I G Hst Ha H. pose proof (co_resume_Inv _ _ _ _ _ I H) as I1.
-  unfold co_resume in H.
-  destruct (match vals with [] => (COk, s) | _ :: _ => co_push k vals s end) as [r1 sp] eqn:P.
-  assert (X : r1 = COk /\ same_ctl s sp /\ exists cp, get k (cos sp) = Some cp /\
+  destruct (co_resume_cases _ _ _ _ _ I H) as [(_ & sp & P & R)|((e & X) & _)]; [|discriminate].
+  assert (X : same_ctl s sp /\ exists cp, get k (cos sp) = Some cp /\
               storage cp = storage c ++ List.concat vals /\ meta cp = meta c).
   { destruct vals as [|v vr].
-    - inversion P; subst. split; [reflexivity|]. split; [apply same_ctl_refl|]. exists c. simpl. rewrite app_nil_r. auto.
-    - destruct r1; try discriminate. split; [reflexivity|].
-      split; [exact (co_push_same _ _ _ _ _ I P)|].
+    - inversion P; subst. split; [apply same_ctl_refl|]. exists c. simpl. rewrite app_nil_r. auto.
+    - split; [exact (co_push_same _ _ _ _ _ I P)|].
       destruct (co_push_storage _ _ _ _ _ I G P) as (c1 & A & B & _).
       destruct (co_push_meta _ _ _ _ _ I G P) as (c1' & A' & B'). rewrite A in A'. inversion A'; subst. eauto. }
-  destruct X as (-> & Sp & cp & Gp & Stp & Mp).
+  destruct X as (Sp & cp & Gp & Stp & Mp).
   pose proof (same_ctl_Inv _ _ Sp I) as Ip.
-  destruct (mco_resume k sp) as [e s2] eqn:R. destruct e; simpl in H; try discriminate. inversion H; subst s2. clear H.
   assert (Ncur : current sp <> Some k).
   { intro E. destruct (current_running _ _ Ip E) as (c' & G' & R'). rewrite Gp in G'. inversion G'; subst c'.
     unfold mco_resume in R. rewrite Gp, R' in R. simpl in R. discriminate. }
